@@ -75,6 +75,21 @@ TEMPLATES = [
     "f'{[[A]]}' == 'x'", "[[A, 2]] == [[1, 2]]", "[[A, 2]] != [[1, 3]]", "[1, 2, 3].map(v, v + A).filter(w, w > A)",
     "[[A]].map(v, v.map(w, w * 2))", "string(A) + 'x'", "[string(A)]", "[[string(A)]]", "type([[A]][0][0])", "[[A]].all(p, p.all(q, q == 1))",
     "int([A][0]) + [[2]][0][0]", "[[A], []].map(v, v.size())", "[[A]].reduce(a, v, a + v.size(), 0)",
+    # map literals whose key is not a string: an error value in the folder and in the VM alike
+    "[{A: 1}].size()", "[{A: 1}]", "{'k': {A: 1}}", "size([{'a': 1, A: 2}])", "{'k': [{A: A}]}.k.size()", "[{'a': {A: 1}}, 2].size()",
+    "[{true: A}].size()", "[{[A]: 1}].map(v, 1)", "size([{1.5: A}, {A: 1.5}])",
+]
+
+# names the compiler's own function table does not have (has, coalesce, functions bound by the caller) in a position
+# where a failed call would be absorbed (a match arm): evaluated with the standard caller-bound functions
+TEMPLATES_UF = [
+    "int(match coalesce(A) { case int : 1, case _ : 2 })", "string(match coalesce(A, 'b') { case == 1 : 'x', case _ : 'y' })",
+    "int(match has(m1.a) { case bool : A, case _ : 2 })", "int(match fa(A) { case int : 1, case _ : 2 })",
+    "int(match A.fa() { case int : 1, case _ : 2 })", "int(match {'k': A}.fa() { case _ : 2 })",
+    "size([match fargs(A) { case list : 1, case _ : 2 }])", "int(match ft() { case == true : A, case _ : 2 })",
+    "[1, 2].map(v, match coalesce(A) { case int : v, case _ : 0 })", "size(match fa([A]) { case list : [1], case _ : [] })",
+    "int(match coalesce(A) { case >= 0 : 1, case _ : 2 }) + int(match fa(A) { case >= 0 : 1, case _ : 2 })",
+    "max(match coalesce(nosuch, A) { case int : 1, case _ : 2 }, 0)",
 ]
 
 
@@ -83,7 +98,7 @@ def run(chk):
     if not builds_or_die(chk):
         return
     n = 2500 if chk.tier == "quick" else 40000
-    es = gen_sources(rng, n, depth=(1, 5), use_unbound=0.03, use_progs=0.0, use_ufuncs=0.0)
+    es = gen_sources(rng, n, depth=(1, 5), use_unbound=0.03, use_progs=0.0, use_ufuncs=0.04)
     cases, groups = [], []
     for e in es:
         ids = sorted(x for x in free_idents(e) if x in LITERAL_OF)
@@ -102,15 +117,15 @@ def run(chk):
             continue
         groups.append((len(cases), srcs))
         for s in srcs:
-            cases.append(evalsrc_case(s, ufuncs=[]))
+            cases.append(evalsrc_case(s))
     # targeted: variables nested in collections inside calls / macro receivers
     tvals = [("1", vi(1)), ("1", vi(1))]
     tgroups = []
-    for t in TEMPLATES:
+    for t in TEMPLATES + TEMPLATES_UF:
         srcs = [t.replace("A", "1"), t.replace("A", "x1")]
         tgroups.append((len(cases), srcs))
         for s in srcs:
-            cases.append(evalsrc_case(s, binds=STD_BINDS + [("x1", vi(1))], ufuncs=[]))
+            cases.append(evalsrc_case(s, binds=STD_BINDS + [("x1", vi(1))], ufuncs=[] if t in TEMPLATES else None))
     impl, model = tie(chk, "substitution variants", cases)
     nviol = 0
     for start, srcs in groups + tgroups:
@@ -131,10 +146,11 @@ def run(chk):
                                                                           original_result=rs[0], substituted_result=r,
                                                                           case=cases[start + 1 + srcs[1:].index(s)]))
                 nviol += 1
-    chk.stream("generated expressions x {original, all variables as literals, 2 random subsets}", len(cases) - 2 * len(TEMPLATES),
+    chk.stream("generated expressions x {original, all variables as literals, 2 random subsets}", len(cases) - 2 * len(TEMPLATES + TEMPLATES_UF),
                len(groups))
-    chk.stream("templates with a variable nested in collections inside calls, macro receivers, map literals, f-strings",
-               2 * len(TEMPLATES), len(TEMPLATES), exhaustive=True)
+    chk.stream("templates with a variable nested in collections inside calls, macro receivers, map literals (string and non-string "
+               "keys), f-strings, and calls of has/coalesce/caller-bound functions under a match arm",
+               2 * len(TEMPLATES + TEMPLATES_UF), len(TEMPLATES + TEMPLATES_UF), exhaustive=True)
     chk.sample(dict(variants=groups[0][1], results=impl[groups[0][0]:groups[0][0] + len(groups[0][1])]))
     chk.sample(dict(variants=tgroups[0][1], results=impl[tgroups[0][0]:tgroups[0][0] + 2]))
 
